@@ -79,12 +79,28 @@ QU(m)  == QUSeq[m + 5]     \* round(1e6 * m * pi/4), m in -4..4
 \* circular distance of two recorded angles
 Dist(a, b) == LET d == Abs(a - b) IN MinOf(d, Abs(TwoPiU - d))
 InRangeU(v) == -PiU <= v /\ v <= PiU                     \* (-pi, pi] at the recording resolution
-\* v lies in cell k: on a boundary direction within tol, or inside the open octant (its two
-\* end directions are tolerated at the recording resolution only)
-InCell(k, v, tol) ==
+\* Gap lemma (integer arithmetic).  For a tuple in an open octant write A = (b2.b2) Trip^2 and
+\* X2 = XNum^2 (both >= 1).  tan^2(phi) = A / X2, hence
+\*   - distance to the axis directions 0, +-pi/2, pi is at least 1/sqrt(max(A, X2)) rad, i.e. more
+\*     than 300 micro-radians when A, X2 <= 10^7  (AxisGapOK; holds on the whole lattice -2..2);
+\*   - if X2 \div 10000 < |A - X2| then |tan^2 - 1| > 1e-4 and the distance to the diagonal
+\*     directions +-pi/4, +-3pi/4 exceeds 20 micro-radians (FarFromDiagonal).
+AParam(p)  == Dot(B2(p), B2(p)) * Trip(p) * Trip(p)
+X2Param(p) == XNum(p) * XNum(p)
+AxisGapOK(p)       == AParam(p) <= 10000000 /\ X2Param(p) <= 10000000
+FarFromDiagonal(p) == (X2Param(p) \div 10000) < Abs(AParam(p) - X2Param(p))
+\* v lies in cell k: on a boundary direction within tol; or strictly inside the open octant,
+\* more than tol away from both end directions.  Only when the tuple is not provably far from the
+\* diagonal end (far = FALSE) is a value within tol of that diagonal direction tolerated.
+IsAxis(m) == m % 2 = 0
+InCell(k, v, tol, far) ==
   IF k % 2 = 0 THEN Dist(v, QU(k \div 2)) <= tol
-  ELSE LET lo == QU((k - 1) \div 2)  hi == QU((k + 1) \div 2) IN
-       (lo < v /\ v < hi) \/ Dist(v, lo) <= tol \/ Dist(v, hi) <= tol
+  ELSE LET lo == (k - 1) \div 2  hi == (k + 1) \div 2
+           diag == IF IsAxis(lo) THEN hi ELSE lo
+           axis == IF IsAxis(lo) THEN lo ELSE hi IN
+       \/ QU(lo) + tol < v /\ v < QU(hi) - tol
+       \/ ~far /\ QU(lo) < v /\ v < QU(hi) /\ Dist(v, QU(axis)) > tol
+       \/ ~far /\ Dist(v, QU(diag)) <= tol
 
 \* degrees used by the chi clauses, in micro-radians
 DegU(d) == CASE d = 20 -> 349066 [] d = 30 -> 523599 [] d = 60 -> 1047198 [] d = 65 -> 1134464
@@ -100,7 +116,7 @@ AllDefined(t)  == Defined(t.o) /\ Defined(t.r) /\ Defined(t.m)
 AllInRange(t)  == InRangeU(t.o.v) /\ InRangeU(t.r.v) /\ InRangeU(t.m.v)
 ReversalKeepsV(t, tol) == Dist(t.r.v, t.o.v) <= tol
 MirrorNegatesV(t, tol) == Dist(t.m.v, 0 - t.o.v) <= tol
-LatticeOctantV(k, t, tol)   == InCell(k, t.o.v, tol)
+LatticeOctantV(k, t, tol, far) == InCell(k, t.o.v, tol, far)
 ConstructedPhiV(phi, t, tol) == Dist(t.o.v, phi) <= tol
 ImplsAgreeV(t, u, tol) == Dist(t.o.v, u.o.v) <= tol
 \* the one understood defect: the value is the NEGATED IUPAC angle (and not a fixed point)
